@@ -1,8 +1,227 @@
-import Pyrtma.Spec.Manager
+import Pyrtma.Proofs.Manager
+/-!
+# C18 — manager traffic statistics are exact
+
+Pure theorems about the counter (`ctrInc` = `Counter[t] += 1`), the TIMING payload (`timingEntries`) and the split of one
+MESSAGE_TRAFFIC interval into sub-messages (`chunks`, `trafficFrames`), for counters of every size.
+-/
 namespace Pyrtma.C18
 open Pyrtma.Mgr
 
-/-- placeholder while the proofs are being written (replaced below) -/
-theorem wip : True := trivial
+/-- `Counter[t]` -/
+def ctrGet (c : List (Int × Nat)) (t : Int) : Nat :=
+  match c.find? (·.1 == t) with
+  | some p => p.2
+  | none => 0
+
+def keys (c : List (Int × Nat)) : List Int := c.map (·.1)
+
+theorem ctrInc_keys (c : List (Int × Nat)) (t : Int) :
+    keys (ctrInc c t) = if t ∈ keys c then keys c else keys c ++ [t] := by
+  unfold ctrInc keys
+  by_cases h : c.any (·.1 == t) = true
+  · have hm : t ∈ c.map (·.1) := by
+      simp only [List.any_eq_true, beq_iff_eq] at h
+      obtain ⟨p, hp, rfl⟩ := h; exact List.mem_map.mpr ⟨p, hp, rfl⟩
+    simp only [h, if_true, hm]
+    rw [List.map_map]; congr 1; funext p; simp only [Function.comp]; split <;> rfl
+  · have hm : t ∉ c.map (·.1) := by
+      intro hm; apply h
+      obtain ⟨p, hp, rfl⟩ := List.mem_map.mp hm
+      exact List.any_eq_true.mpr ⟨p, hp, by simp⟩
+    simp [h, hm]
+
+/-- every type appears at most once in the counter -/
+theorem ctrInc_nodup (c : List (Int × Nat)) (t : Int) (h : (keys c).Nodup) : (keys (ctrInc c t)).Nodup := by
+  rw [ctrInc_keys]; split
+  · exact h
+  · rename_i hn; exact List.nodup_append.mpr ⟨h, by simp, by intro a ha b hb; simp at hb; subst hb; exact fun e => hn (e ▸ ha)⟩
+
+theorem find_map_key (c : List (Int × Nat)) (g : Int × Nat → Int × Nat) (hk : ∀ p, (g p).1 = p.1) (t' : Int) :
+    (c.map g).find? (·.1 == t') = (c.find? (·.1 == t')).map g := by
+  induction c with
+  | nil => rfl
+  | cons p c ih =>
+    simp only [List.map_cons, List.find?_cons, hk]
+    cases (p.1 == t') <;> simp [ih]
+
+/-- **Each handled message counts exactly once, against its own type** -/
+theorem ctrInc_get (c : List (Int × Nat)) (t t' : Int) :
+    ctrGet (ctrInc c t) t' = ctrGet c t' + (if t' = t then 1 else 0) := by
+  unfold ctrInc ctrGet
+  by_cases h : c.any (·.1 == t) = true
+  · simp only [h, if_true]
+    rw [find_map_key c _ (by intro p; split <;> rfl) t']
+    cases hf : c.find? (·.1 == t') with
+    | none =>
+      have : t' ≠ t := by
+        intro e; subst e
+        rw [List.find?_eq_none] at hf
+        simp only [List.any_eq_true] at h
+        obtain ⟨p, hp, hpt⟩ := h; exact hf p hp hpt
+      simp [this]
+    | some p =>
+      have hp : p.1 = t' := by simpa using List.find?_some hf
+      simp only [Option.map_some]
+      by_cases ht : t' = t
+      · subst ht; simp [hp]
+      · have : (p.1 == t) = false := by simp; rw [hp]; exact ht
+        simp [this, ht]
+  · have hf : c.any (·.1 == t) = false := Bool.eq_false_iff.mpr h
+    simp only [hf, Bool.false_eq_true, if_false, List.find?_append]
+    by_cases ht : t' = t
+    · subst ht
+      have : c.find? (·.1 == t') = none := by
+        rw [List.find?_eq_none]; intro p hp; have := List.any_eq_false.mp hf p hp; simpa using this
+      simp [this]
+    · have : ((t == t') = false) := by simp; exact fun e => ht e.symm
+      cases hc : c.find? (·.1 == t') <;> simp [this, ht]
+
+/-! ## TIMING_MESSAGE -/
+
+/-- **TIMING reports, for every type in range, the handled count modulo 2¹⁶** (the array is `uint16`), and nothing for
+a type out of range: in particular a negative type id is never attributed to `MAX_MESSAGE_TYPES + id`. -/
+theorem timing_exact (cfg : Cfg) (c : List (Int × Nat)) (hn : (keys c).Nodup) (t : Int) :
+    ctrGet (timingEntries cfg c) t =
+      if 0 ≤ t ∧ t < cfg.maxTypes then u16 (ctrGet c t) else 0 := by
+  unfold timingEntries ctrGet
+  induction c with
+  | nil => simp [u16]
+  | cons p c ih =>
+    have hn' : (keys c).Nodup := by unfold keys at *; simp at hn; exact hn.2
+    have hnot : ∀ q ∈ c, q.1 ≠ p.1 := by
+      intro q hq e; unfold keys at hn; simp at hn; exact hn.1 q.2 (by rw [← e]; exact hq)
+    have ih := ih hn'
+    simp only [List.filter_cons, List.find?_cons]
+    by_cases hr : (decide (0 ≤ p.1) && decide (p.1 < cfg.maxTypes)) = true
+    · simp only [hr, if_true, List.map_cons, List.filter_cons]
+      by_cases hz : (u16 p.2 != 0) = true
+      · simp only [hz, if_true, List.find?_cons]
+        by_cases hpt : p.1 = t
+        · subst hpt
+          have hr' : 0 ≤ p.1 ∧ p.1 < cfg.maxTypes := by simpa using hr
+          simp [hr']
+        · have hpt' : (p.1 == t) = false := by simpa using hpt
+          simp only [hpt']; exact ih
+      · have hz' : (u16 p.2 != 0) = false := by simpa using hz
+        simp only [hz', Bool.false_eq_true, if_false]
+        by_cases hpt : p.1 = t
+        · subst hpt
+          have hr' : 0 ≤ p.1 ∧ p.1 < cfg.maxTypes := by simpa using hr
+          have hnone : c.find? (·.1 == p.1) = none := by
+            rw [List.find?_eq_none]; intro q hq; simpa using hnot q hq
+          have e0 : u16 0 = 0 := rfl
+          have hz'' : u16 p.2 = 0 := by simpa using hz'
+          rw [ih]; simp [hr', hnone, hz'', e0]
+        · have hpt' : (p.1 == t) = false := by simpa using hpt
+          simp only [hpt']; exact ih
+    · have hr' : (decide (0 ≤ p.1) && decide (p.1 < cfg.maxTypes)) = false := by simpa using hr
+      simp only [hr', Bool.false_eq_true, if_false]
+      by_cases hpt : p.1 = t
+      · subst hpt
+        have hnone : c.find? (·.1 == p.1) = none := by
+          rw [List.find?_eq_none]; intro q hq; simpa using hnot q hq
+        have hrr : ¬(0 ≤ p.1 ∧ p.1 < cfg.maxTypes) := by simpa using hr'
+        rw [ih]; simp [hrr]
+      · have hpt' : (p.1 == t) = false := by simpa using hpt
+        simp only [hpt']; exact ih
+
+/-! ## MESSAGE_TRAFFIC: the split into sub-messages -/
+
+theorem chunks_flatten (n : Nat) (hn : 0 < n) : ∀ (fuel : Nat) (l : List (Int × Nat)), l.length < fuel →
+    (chunks n l fuel).flatten = l
+  | 0, l, h => by omega
+  | fuel + 1, l, h => by
+    unfold chunks
+    split
+    · split <;> simp_all
+    · rename_i hc
+      have hlen : n < l.length := by omega
+      rw [List.flatten_cons, chunks_flatten n hn fuel (l.drop n) (by simp; omega), List.take_append_drop]
+
+/-- every sub-message carries between 1 and `MESSAGE_TRAFFIC_SIZE` real entries; all but the last are full -/
+theorem chunks_sizes (n : Nat) (hn : 0 < n) : ∀ (fuel : Nat) (l : List (Int × Nat)) (c : List (Int × Nat)),
+    c ∈ chunks n l fuel → 0 < c.length ∧ c.length ≤ n
+  | 0, l, c, h => by simp [chunks] at h
+  | fuel + 1, l, c, h => by
+    unfold chunks at h
+    split at h
+    · rename_i hc
+      split at h
+      · simp at h
+      · rename_i he
+        simp at h; subst h
+        have : c ≠ [] := by simpa using he
+        exact ⟨List.length_pos_iff.mpr this, by omega⟩
+    · rename_i hc
+      simp only [List.mem_cons] at h
+      rcases h with rfl | h
+      · simp; omega
+      · exact chunks_sizes n hn fuel _ c h
+
+theorem enumFrom1_fst : ∀ (i : Nat) (l : List (List (Int × Nat))),
+    (enumFrom1 i l).map (·.1) = (List.range l.length).map (· + i)
+  | i, [] => rfl
+  | i, c :: r => by
+    simp only [enumFrom1, List.map_cons, List.length_cons, List.range_succ_eq_map, List.map_map, enumFrom1_fst (i + 1) r]
+    simp; intro a _; omega
+
+theorem enumFrom1_snd : ∀ (i : Nat) (l : List (List (Int × Nat))), (enumFrom1 i l).map (·.2) = l
+  | _, [] => rfl
+  | i, c :: r => by simp [enumFrom1, enumFrom1_snd (i + 1) r]
+
+/-- the real (non-filler) entries of one sub-message -/
+def realEntries (b : Body) (len : Nat) : List (Int × Nat) :=
+  match b with
+  | .traffic _ _ ts cs => (ts.take len).zip (cs.take len)
+  | _ => []
+
+/-- **One interval is reported exactly.**  The sub-messages of an interval have `sub_seqno = 1, 2, …, k`, all carry the
+interval's `seqno`, each has exactly `MESSAGE_TRAFFIC_SIZE` slots with fillers `-1` / `0` after its real entries, and the
+real entries of all sub-messages, concatenated in order, are exactly the counter: every type seen in the interval once,
+with its count (mod 2¹⁶), and nothing else — for a counter of any size. -/
+theorem traffic_partition (cfg : Cfg) (seqno : Nat) (c : List (Int × Nat)) (hsz : 0 < cfg.trafficSize) :
+    let cs := chunks cfg.trafficSize c (c.length + 1)
+    let fs := trafficFrames cfg seqno c
+    cs.flatten = c ∧
+    (∀ ch ∈ cs, 0 < ch.length ∧ ch.length ≤ cfg.trafficSize) ∧
+    fs.map (·.body) = (enumFrom1 1 cs).map (fun p => Body.traffic seqno p.1
+        (p.2.map (·.1) ++ List.replicate (cfg.trafficSize - p.2.length) (-1))
+        (p.2.map (fun q => u16 q.2) ++ List.replicate (cfg.trafficSize - p.2.length) 0)) ∧
+    (enumFrom1 1 cs).map (·.1) = (List.range cs.length).map (· + 1) ∧
+    (∀ f ∈ fs, f.mtype = cfg.mtTraffic ∧ f.src = 0 ∧ f.dest = 0 ∧ f.nbytes = cfg.szTraffic) := by
+  refine ⟨chunks_flatten _ hsz _ _ (by omega), fun ch h => chunks_sizes _ hsz _ _ ch h, ?_, enumFrom1_fst 1 _, ?_⟩
+  · simp [trafficFrames, trafficBody, mgrFrame]
+  · intro f hf
+    simp only [trafficFrames, List.mem_map] at hf
+    obtain ⟨p, _, rfl⟩ := hf
+    exact ⟨rfl, rfl, rfl, rfl⟩
+
+/-- nothing is sent for an empty interval -/
+theorem traffic_empty (cfg : Cfg) (seqno : Nat) : trafficFrames cfg seqno [] = [] := by
+  simp [trafficFrames, chunks, enumFrom1]
+
+/-- **The statistics messages themselves are not counted**: while `sending_traffic` is set, `forward_message` leaves
+both counters alone. -/
+theorem stats_not_counted (cfg : Cfg) (s : State) (t : Int) (h : s.inTraffic = true) :
+    (countMsg cfg s t).counts = s.counts ∧ (countMsg cfg s t).traffic = s.traffic := by
+  unfold countMsg; simp [h]
+
+/-- …and outside of it every forwarded frame is counted once in each counter (the TIMING one only when enabled) -/
+theorem forward_counted (cfg : Cfg) (s : State) (t t' : Int) (h : s.inTraffic = false) :
+    ctrGet (countMsg cfg s t).traffic t' = ctrGet s.traffic t' + (if t' = t then 1 else 0) ∧
+    (cfg.timing = true → ctrGet (countMsg cfg s t).counts t' = ctrGet s.counts t' + (if t' = t then 1 else 0)) := by
+  unfold countMsg; simp only [h, Bool.false_eq_true, if_false]
+  exact ⟨ctrInc_get _ _ _, fun ht => by simp only [ht, if_true]; exact ctrInc_get _ _ _⟩
+
+/-! ### Non-vacuity: with 4 slots per sub-message, 10 distinct types make three sub-messages of 4, 4 and 2 entries -/
+def exCfg : Cfg := { trafficSize := 4 }
+def exCounter : List (Int × Nat) := [(6000, 1), (6001, 2), (6002, 3), (6003, 4), (6004, 5), (6005, 6), (6006, 7), (6007, 8), (-1, 9), (6009, 65537)]
+example : (trafficFrames exCfg 7 exCounter).map (·.body) =
+    [.traffic 7 1 [6000, 6001, 6002, 6003] [1, 2, 3, 4], .traffic 7 2 [6004, 6005, 6006, 6007] [5, 6, 7, 8],
+     .traffic 7 3 [-1, 6009, -1, -1] [9, 1, 0, 0]] := by decide
+example : (keys exCounter).Nodup := by decide
+example : ctrGet (timingEntries {} [(5, 65537), (-5, 3), (10000, 1), (9999, 65536)]) 5 = 1 := by decide
+example : ctrGet (timingEntries {} [(5, 65537), (-5, 3), (10000, 1), (9999, 65536)]) 9995 = 0 := by decide
 
 end Pyrtma.C18
